@@ -254,6 +254,7 @@ class History:
                     raise c
             except ForsysCrash:
                 self.ctx.count("step-crashes-on-a-fresh-object-too(not history dependent)")
+                self.ctx.count(f"fresh-crash:{c.kind}@{c.where}:{step.get('method')}:{step.get('b_matrix')}")
                 self.dead = True
                 return True
             self.fail(f"crash-only-after-history:{c.kind}@{c.where}", observed=str(c), expected="same as a fresh object")
